@@ -57,11 +57,34 @@ mktype(enum typekind kind, enum typeprop prop)
 	return t;
 }
 
+/* the qualifiers of an array type are those of its elements (C11 6.7.3p9) */
+static struct type *
+qualifyarray(struct type *t, enum typequal tq)
+{
+	struct type *r, **p;
+
+	/* copy the array types down to the innermost one, which gets the qualifiers */
+	for (p = &r;; p = &(*p)->base, t = t->base) {
+		*p = xmalloc(sizeof(**p));
+		**p = *t;
+		tq |= t->qual;
+		if (t->base->kind != TYPEARRAY)
+			break;
+		(*p)->qual = QUALNONE;
+	}
+	(*p)->qual = tq;
+	return r;
+}
+
 struct type *
 mkpointertype(struct type *base, enum typequal qual)
 {
 	struct type *t;
 
+	if (qual && base && base->kind == TYPEARRAY && base->base) {
+		base = qualifyarray(base, qual);
+		qual = QUALNONE;
+	}
 	t = mktype(TYPEPOINTER, PROPSCALAR);
 	t->base = base;
 	t->qual = qual;
